@@ -356,11 +356,17 @@ def r9_6(repo: Repo) -> RuleResult:
     return rr
 
 
-RULES = [r9_1, r9_2, r9_3, r9_4, r9_5, r9_6]
+def r9_7(repo: Repo) -> RuleResult:
+    from .c10 import r10_6
+
+    return r10_6(repo, "R9.7", {MG}, floor=3)
+
+
+RULES = [r9_1, r9_2, r9_3, r9_4, r9_5, r9_6, r9_7]
 CLAIM = (
     "R9.1 definite assignment in every kernel of mixed_gram_vectorizer.py (the empty / one-character string clause); "
     "R9.2 all decode sites agree on `code <= mcc` and offset `code - mcc - 1`, both encoders start at mcc + 1 and advance "
-    "by one per merge (symbolic); R9.3 the vocabulary budget loop shape; R9.4 the out-of-range character mapping; R9.5 bookkeeping pairing: token and pair are appended together, the returned max_char_code is the running maximum, and transform replays exactly the stored merge list and limit; R9.6 sibling agreement: the encoder's contraction kernel equals the trainer's once the pair-count bookkeeping is sliced away (backward slice from the returned code array, alpha-renamed)."
+    "by one per merge (symbolic); R9.3 the vocabulary budget loop shape; R9.4 the out-of-range character mapping; R9.5 bookkeeping pairing: token and pair are appended together, the returned max_char_code is the running maximum, and transform replays exactly the stored merge list and limit; R9.6 sibling agreement: the encoder's contraction kernel equals the trainer's once the pair-count bookkeeping is sliced away (backward slice from the returned code array, alpha-renamed); R9.7 every np.empty buffer / placeholder list of the BPE and LZ kernels is stored on every iteration of its filling loop (an empty string keeps no placeholder)."
 )
 NOT_DECIDED = (
     "losslessness for arbitrary strings, equality of transform and fit_transform encodings, and correctness of the "
